@@ -340,3 +340,14 @@ w("C20", "polars sample on the LazyFrame again", BL + "base.py",
 w("C02", "polars scalar failure case not cast to string again", BL + "base.py",
   "                        \"failure_case\": pl.Utf8,\n                        \"check_number\": pl.Int32,\n                        \"column\": pl.String,\n                        \"index\": pl.Int32,\n                    }\n                )\n\n            failure_case_collection.append",
   "                        \"check_number\": pl.Int32,\n                        \"column\": pl.String,\n                        \"index\": pl.Int32,\n                    }\n                )\n\n            failure_case_collection.append")
+w("C07", "class namespace iterated live again", "pandera/api/dataframe/model.py",
+  "            for attr_name, attr_value in list(vars(base).items()):\n                check_info = getattr(attr_value, key, None)",
+  "            for attr_name, attr_value in vars(base).items():\n                check_info = getattr(attr_value, key, None)")
+w("C09", "polars Decimal.check asserts the kind again", "pandera/engines/polars_engine.py",
+  "        if not isinstance(pandera_dtype, Decimal):\n            # a data type of another kind is not a decimal\n            return False\n",
+  "        assert isinstance(pandera_dtype, Decimal), \"expected Decimal\"\n")
+w("C14", "column statistics dereferenced without a None test again", "pandera/schema_inference/pandas.py",
+  "            for colname, properties in (\n                # a dataframe without columns has no column statistics\n                df_statistics[\"columns\"]\n                or {}\n            ).items()\n",
+  "            for colname, properties in df_statistics[\"columns\"].items()\n")
+w("C05", "Check.__call__ re-binds on the name alone again", "pandera/api/checks.py",
+  "            and self.is_builtin_check(self.name)\n            and isinstance(self._check_fn, Dispatcher)\n", "            and self.is_builtin_check(self.name)\n")
